@@ -37,17 +37,19 @@ func perms(n int) [][]int {
 }
 
 func (c *ctx) numfkShift() {
-	type key struct{ name, col, ref, onDel string }
-	all := []key{{"kx", "x", "a", "CASCADE"}, {"ky", "y", "b", "SET NULL"}, {"kz", "z", "c", ""}}
-	extra := key{"kw", "w", "a", ""}
+	type key struct{ name, col, ref, onDel, refCol string }
+	setA := []key{{"kx", "x", "a", "CASCADE", "id"}, {"ky", "y", "b", "SET NULL", "id"}, {"kz", "z", "c", "", "id"}}
+	// set B: two keys that differ in the referenced column only (x -> a.id, x -> a.code)
+	setB := []key{{"kx", "x", "a", "CASCADE", "id"}, {"kx2", "x", "a", "SET NULL", "code"}, {"ky", "y", "b", "SET NULL", "id"}}
+	extra := key{"kw", "w", "a", "", "id"}
 	mk := func(keys []key) Schema {
 		ref := func(n string) Table {
-			return Table{Name: n, Cols: []Col{{Name: "id", Type: "integer"}}}
+			return Table{Name: n, Cols: []Col{{Name: "id", Type: "integer"}, {Name: "code", Type: "integer"}}}
 		}
 		t := Table{Name: "t", Cols: []Col{{Name: "x", Type: "integer", Null: true}, {Name: "y", Type: "integer", Null: true},
 			{Name: "z", Type: "integer", Null: true}, {Name: "w", Type: "integer", Null: true}}}
 		for i, k := range keys {
-			t.FKs = append(t.FKs, FK{Symbol: strconv.Itoa(i), Cols: []string{k.col}, RefTable: k.ref, RefCols: []string{"id"}, OnDelete: k.onDel})
+			t.FKs = append(t.FKs, FK{Symbol: strconv.Itoa(i), Cols: []string{k.col}, RefTable: k.ref, RefCols: []string{k.refCol}, OnDelete: k.onDel})
 		}
 		return Schema{Name: "main", Tables: []Table{ref("a"), ref("b"), ref("c"), t}}
 	}
@@ -65,8 +67,8 @@ func (c *ctx) numfkShift() {
 		}
 		return out
 	}
-	for n := 2; n <= 3; n++ {
-		base := all[:n]
+	for _, base := range [][]key{setA[:2], setA, setB} {
+		n := len(base)
 		// (a) every pair of orders
 		for _, p1 := range perms(n) {
 			for _, p2 := range perms(n) {
